@@ -1,5 +1,5 @@
 (* Property C12 - lemmas about Model/Envelope.v (integer-lattice instance ZO). *)
-From Coq Require Import ZArith QArith List Bool Lia Permutation Psatz.
+From Coq Require Import ZArith QArith List Bool Lia Lqa Permutation.
 From SF Require Import Base.GeomAST Model.Envelope.
 Import ListNotations.
 Open Scope Z_scope.
@@ -49,3 +49,1089 @@ Lemma join_empty_l_lemma (a : zenv) : join ZO None a = a.
 Proof. reflexivity. Qed.
 Lemma join_empty_r_lemma (a : zenv) : join ZO a None = a.
 Proof. destruct a; reflexivity. Qed.
+
+Lemma join_wf_lemma (a b : zenv) : wf_env a -> wf_env b -> wf_env (join ZO a b).
+Proof.
+  destruct a as [a|], b as [b|]; cbn; auto.
+  unfold wf_box; cbn; zo; lia.
+Qed.
+
+(* the join is the least upper bound for the covering order *)
+Lemma join_inside_l (a b : zenv) p : inside_env a p -> inside_env (join ZO a b) p.
+Proof.
+  destruct a as [a|], b as [b|]; cbn; auto; try tauto.
+  unfold inside; cbn; zo; lia.
+Qed.
+Lemma join_inside_r (a b : zenv) p : inside_env b p -> inside_env (join ZO a b) p.
+Proof. rewrite join_comm_lemma. apply join_inside_l. Qed.
+
+(* ------------------------------------------------------------------ *)
+(* predicates against closed-interval point sets                       *)
+(* ------------------------------------------------------------------ *)
+Lemma contains_iff_lemma (e : zenv) (p : Z * Z) : contains ZO e p = true <-> inside_env e p.
+Proof.
+  destruct e as [b|]; cbn; [|split; [discriminate|tauto]].
+  unfold inside. rewrite !andb_true_iff, !Z.leb_le. tauto.
+Qed.
+
+Lemma contains_empty_lemma (p : Z * Z) : contains ZO None p = false.
+Proof. reflexivity. Qed.
+
+Lemma intersects_iff_lemma (a b : zenv) :
+  wf_env a -> wf_env b ->
+  (intersects ZO a b = true <-> exists p, inside_env a p /\ inside_env b p).
+Proof.
+  destruct a as [a|], b as [b|]; cbn; intros Ha Hb;
+    try (split; [discriminate | intros [p [H1 H2]]; tauto]).
+  rewrite !andb_true_iff, !Z.leb_le. unfold inside, wf_box in *. split.
+  - intros H. exists (Z.max (minx a) (minx b), Z.max (miny a) (miny b)). cbn. lia.
+  - intros [[x y] H]. cbn in H. lia.
+Qed.
+
+Lemma intersects_empty_lemma (a : zenv) : intersects ZO None a = false /\ intersects ZO a None = false.
+Proof. destruct a; split; reflexivity. Qed.
+
+Lemma intersects_sym_lemma (a b : zenv) : intersects ZO a b = intersects ZO b a.
+Proof.
+  destruct a as [a|], b as [b|]; cbn; try reflexivity.
+  destruct (Z.leb_spec (minx a) (maxx b)), (Z.leb_spec (minx b) (maxx a)),
+    (Z.leb_spec (miny a) (maxy b)), (Z.leb_spec (miny b) (maxy a)); reflexivity.
+Qed.
+
+(* Covers: for a non-empty (well-formed) second operand it is set inclusion ... *)
+Lemma covers_iff_lemma (a b : zbox) :
+  wf_box b ->
+  (covers ZO (Some a) (Some b) = true <-> forall p, inside b p -> inside a p).
+Proof.
+  intros Hb. cbn. rewrite !andb_true_iff, !Z.leb_le. unfold inside, wf_box in *. split.
+  - intros H [x y]; cbn. lia.
+  - intros H. pose proof (H (minx b, miny b)) as H1. pose proof (H (maxx b, maxy b)) as H2.
+    cbn in H1, H2. lia.
+Qed.
+(* ... and, as type_envelope.go documents, false whenever either operand is empty (also for an
+   empty second operand, where set inclusion would hold vacuously) *)
+Lemma covers_empty_lemma (a : zenv) : covers ZO a None = false /\ covers ZO None a = false.
+Proof. destruct a; split; reflexivity. Qed.
+
+Lemma covers_refl_lemma (a : zenv) : covers ZO a a = negb (env_is_empty a).
+Proof. destruct a as [a|]; cbn; [|reflexivity]. rewrite !Z.leb_refl. reflexivity. Qed.
+
+Lemma covers_join_lemma (a b : zenv) : b <> None -> wf_env a ->
+  (covers ZO a b = true <-> join ZO a b = a).
+Proof.
+  destruct a as [a|], b as [b|]; cbn; intros Hb Ha; try congruence.
+  - rewrite !andb_true_iff, !Z.leb_le. split.
+    + intros H. f_equal. destruct a; apply box_eq; cbn in *; zo; lia.
+    + intros H. injection H as H. destruct a as [x0 y0 x1 y1]; cbn in *.
+      injection H as H1 H2 H3 H4. revert H1 H2 H3 H4. zo. lia.
+  - split; discriminate.
+Qed.
+
+(* ------------------------------------------------------------------ *)
+(* squared distance                                                    *)
+(* ------------------------------------------------------------------ *)
+Lemma sq_le_sq k d : 0 <= k -> (k <= d \/ k <= - d) -> k * k <= d * d.
+Proof. intros. nia. Qed.
+
+Definition gap (lo1 hi1 lo2 hi2 : Z) : Z := Z.max 0 (Z.max (lo2 - hi1) (lo1 - hi2)).
+
+Lemma dist2_unfold (a b : zbox) :
+  dist2 (Some a) (Some b) =
+  Some (gap (minx a) (maxx a) (minx b) (maxx b) * gap (minx a) (maxx a) (minx b) (maxx b)
+        + gap (miny a) (maxy a) (miny b) (maxy b) * gap (miny a) (maxy a) (miny b) (maxy b)).
+Proof. unfold dist2, gap. zo. reflexivity. Qed.
+
+Lemma gap_lower lo1 hi1 lo2 hi2 x u :
+  lo1 <= x <= hi1 -> lo2 <= u <= hi2 ->
+  gap lo1 hi1 lo2 hi2 * gap lo1 hi1 lo2 hi2 <= (x - u) * (x - u).
+Proof.
+  intros H1 H2. apply sq_le_sq; unfold gap; lia.
+Qed.
+
+Lemma gap_attained lo1 hi1 lo2 hi2 :
+  lo1 <= hi1 -> lo2 <= hi2 ->
+  exists x u, lo1 <= x <= hi1 /\ lo2 <= u <= hi2 /\
+              (x - u) * (x - u) = gap lo1 hi1 lo2 hi2 * gap lo1 hi1 lo2 hi2.
+Proof.
+  intros H1 H2. unfold gap.
+  destruct (Z_lt_le_dec hi1 lo2) as [L|L].
+  - exists hi1, lo2.
+    replace (Z.max 0 (Z.max (lo2 - hi1) (lo1 - hi2))) with (lo2 - hi1) by lia.
+    repeat split; try lia; ring.
+  - destruct (Z_lt_le_dec hi2 lo1) as [R|R].
+    + exists lo1, hi2.
+      replace (Z.max 0 (Z.max (lo2 - hi1) (lo1 - hi2))) with (lo1 - hi2) by lia.
+      repeat split; try lia; ring.
+    + exists (Z.max lo1 lo2), (Z.max lo1 lo2).
+      replace (Z.max 0 (Z.max (lo2 - hi1) (lo1 - hi2))) with 0 by lia.
+      repeat split; try lia; ring.
+Qed.
+
+Lemma dist2_defined_lemma (a b : zenv) :
+  dist2 a b = None <-> (a = None \/ b = None).
+Proof.
+  destruct a as [a|], b as [b|]; cbn; split; intros H; try discriminate; auto;
+    destruct H; discriminate.
+Qed.
+
+Lemma dist2_lower_bound_lemma (a b : zbox) d p q :
+  dist2 (Some a) (Some b) = Some d -> inside a p -> inside b q -> d <= sqd p q.
+Proof.
+  rewrite dist2_unfold. intros H [Hx Hy] [Hu Hv]. injection H as <-. unfold sqd.
+  pose proof (gap_lower _ _ _ _ _ _ Hx Hu). pose proof (gap_lower _ _ _ _ _ _ Hy Hv). lia.
+Qed.
+
+Lemma dist2_attained_lemma (a b : zbox) :
+  wf_box a -> wf_box b ->
+  exists d p q, dist2 (Some a) (Some b) = Some d /\ inside a p /\ inside b q /\ sqd p q = d.
+Proof.
+  intros [Ax Ay] [Bx By]. rewrite dist2_unfold.
+  destruct (gap_attained _ _ _ _ Ax Bx) as (x & u & Hx & Hu & Ex).
+  destruct (gap_attained _ _ _ _ Ay By) as (y & v & Hy & Hv & Ey).
+  eexists. exists (x, y), (u, v). split; [reflexivity|]. unfold inside, sqd; cbn.
+  repeat split; try lia.
+Qed.
+
+Lemma dist2_sym_lemma (a b : zenv) : dist2 a b = dist2 b a.
+Proof.
+  destruct a as [a|], b as [b|]; try reflexivity. rewrite !dist2_unfold. unfold gap.
+  f_equal. rewrite (Z.max_comm (minx b - maxx a)), (Z.max_comm (miny b - maxy a)). reflexivity.
+Qed.
+
+Lemma dist2_zero_iff_intersects_lemma (a b : zbox) :
+  wf_box a -> wf_box b -> (dist2 (Some a) (Some b) = Some 0 <-> intersects ZO (Some a) (Some b) = true).
+Proof.
+  intros [Ax Ay] [Bx By]. rewrite dist2_unfold. cbn. rewrite !andb_true_iff, !Z.leb_le. unfold gap. split.
+  - intros H. injection H as H.
+    assert (Z.max 0 (Z.max (minx b - maxx a) (minx a - maxx b)) = 0 /\
+            Z.max 0 (Z.max (miny b - maxy a) (miny a - maxy b)) = 0) as [H1 H2] by nia.
+    lia.
+  - intros H. f_equal.
+    replace (Z.max 0 (Z.max (minx b - maxx a) (minx a - maxx b))) with 0 by lia.
+    replace (Z.max 0 (Z.max (miny b - maxy a) (miny a - maxy b))) with 0 by lia. reflexivity.
+Qed.
+
+(* ------------------------------------------------------------------ *)
+(* classification                                                      *)
+(* ------------------------------------------------------------------ *)
+Definition b2n (b : bool) : nat := if b then 1%nat else 0%nat.
+Lemma classification_lemma (e : zenv) :
+  (b2n (env_is_empty e) + b2n (env_is_point ZO e) + b2n (env_is_line ZO e)
+   + b2n (env_is_rectangle ZO e) = 1)%nat.
+Proof.
+  destruct e as [b|]; cbn; [|reflexivity].
+  destruct (minx b =? maxx b), (miny b =? maxy b); reflexivity.
+Qed.
+
+Lemma is_point_iff_lemma (b : zbox) :
+  env_is_point ZO (Some b) = true <-> (minx b = maxx b /\ miny b = maxy b).
+Proof. cbn. rewrite andb_true_iff, !Z.eqb_eq. tauto. Qed.
+Lemma is_rectangle_iff_lemma (b : zbox) :
+  wf_box b -> (env_is_rectangle ZO (Some b) = true <-> 0 < area (Some b)).
+Proof.
+  intros [Hx Hy]. cbn. rewrite andb_true_iff, !negb_true_iff, !Z.eqb_neq. split.
+  - intros [H1 H2]. nia.
+  - intros H. split; intros E; rewrite E in H; lia.
+Qed.
+Lemma is_line_iff_lemma (b : zbox) :
+  wf_box b ->
+  (env_is_line ZO (Some b) = true <-> (area (Some b) = 0 /\ 0 < width (Some b) + height (Some b))).
+Proof.
+  intros [Hx Hy]. cbn.
+  destruct (Z.eqb_spec (minx b) (maxx b)), (Z.eqb_spec (miny b) (maxy b)); cbn; split; intros H;
+    try discriminate; try (split; nia); try reflexivity; destruct H; nia.
+Qed.
+
+Lemma area_lemma (e : zenv) : area e = width e * height e.
+Proof. destruct e; reflexivity. Qed.
+Lemma measures_nonneg_lemma (e : zenv) : wf_env e -> 0 <= width e /\ 0 <= height e /\ 0 <= area e.
+Proof. destruct e as [b|]; cbn; [|lia]. intros [Hx Hy]. nia. Qed.
+
+(* centre: the midpoint, a point of the envelope *)
+Open Scope Q_scope.
+Lemma center_lemma (b : zbox) cx cy :
+  wf_box b -> center (Some b) = Some (cx, cy) ->
+  cx - inject_Z (minx b) == inject_Z (maxx b) - cx /\ cy - inject_Z (miny b) == inject_Z (maxy b) - cy /\
+  inject_Z (minx b) <= cx <= inject_Z (maxx b) /\ inject_Z (miny b) <= cy <= inject_Z (maxy b).
+Proof.
+  intros [Hx Hy] H. injection H as <- <-. unfold Qeq, Qle, Qminus, Qplus, Qopp, inject_Z; cbn.
+  repeat split; lia.
+Qed.
+Lemma center_empty_lemma : center None = None.
+Proof. reflexivity. Qed.
+Close Scope Q_scope.
+
+(* ------------------------------------------------------------------ *)
+(* NewEnvelope / ExpandToIncludeXY and the tight box of a point list   *)
+(* ------------------------------------------------------------------ *)
+Definition pt_box (p : Z * Z) : zbox := MkBox (fst p) (snd p) (fst p) (snd p).
+
+Lemma expand_xy_join (e : zenv) p : expand_xy ZO e p = join ZO e (Some (pt_box p)).
+Proof. destruct e; reflexivity. Qed.
+
+Lemma fold_expand_join ps : forall e : zenv,
+  fold_left (expand_xy ZO) ps e = join ZO e (new_envelope ZO ps).
+Proof.
+  unfold new_envelope. induction ps as [|a ps IH]; intros e; cbn [fold_left].
+  - symmetry; apply join_empty_r_lemma.
+  - rewrite IH, (IH (expand_xy ZO None a)), !expand_xy_join, join_empty_l_lemma.
+    apply join_assoc_lemma.
+Qed.
+
+Lemma new_envelope_cons p ps :
+  new_envelope ZO (p :: ps) = join ZO (Some (pt_box p)) (new_envelope ZO ps).
+Proof. unfold new_envelope at 1. cbn [fold_left]. apply fold_expand_join. Qed.
+
+Lemma new_envelope_app_lemma l1 l2 :
+  new_envelope ZO (l1 ++ l2) = join ZO (new_envelope ZO l1) (new_envelope ZO l2).
+Proof. unfold new_envelope at 1. rewrite fold_left_app. apply fold_expand_join. Qed.
+
+(* [Tight ps e]: e is empty iff there is no point; otherwise every point is inside e and each
+   of the four sides of e passes through some point *)
+Definition Tight (ps : list (Z * Z)) (e : zenv) : Prop :=
+  match e with
+  | None => ps = []
+  | Some b =>
+      (forall p, In p ps -> inside b p) /\
+      (exists p, In p ps /\ fst p = minx b) /\ (exists p, In p ps /\ snd p = miny b) /\
+      (exists p, In p ps /\ fst p = maxx b) /\ (exists p, In p ps /\ snd p = maxy b)
+  end.
+
+Lemma tight_wf ps e : Tight ps e -> wf_env e.
+Proof.
+  destruct e as [b|]; cbn; auto. intros (Hin & (p & Hp & Ex) & (q & Hq & Ey) & _).
+  apply Hin in Hp, Hq. unfold inside, wf_box in *. lia.
+Qed.
+
+Lemma tight_unique_set ps qs (e1 e2 : zenv) :
+  (forall p, In p ps <-> In p qs) -> Tight ps e1 -> Tight qs e2 -> e1 = e2.
+Proof.
+  intros S. destruct e1 as [a|], e2 as [b|]; cbn.
+  - intros (Ia & (a1 & A1 & E1) & (a2 & A2 & E2) & (a3 & A3 & E3) & (a4 & A4 & E4))
+           (Ib & (b1 & B1 & F1) & (b2 & B2 & F2) & (b3 & B3 & F3) & (b4 & B4 & F4)).
+    f_equal. apply box_eq.
+    + pose proof (Ib _ (proj1 (S _) A1)). pose proof (Ia _ (proj2 (S _) B1)). unfold inside in *. lia.
+    + pose proof (Ib _ (proj1 (S _) A2)). pose proof (Ia _ (proj2 (S _) B2)). unfold inside in *. lia.
+    + pose proof (Ib _ (proj1 (S _) A3)). pose proof (Ia _ (proj2 (S _) B3)). unfold inside in *. lia.
+    + pose proof (Ib _ (proj1 (S _) A4)). pose proof (Ia _ (proj2 (S _) B4)). unfold inside in *. lia.
+  - intros (_ & (p & Hp & _) & _) ->. apply S in Hp. destruct Hp.
+  - intros -> (_ & (p & Hp & _) & _). apply S in Hp. destruct Hp.
+  - reflexivity.
+Qed.
+
+Lemma tight_unique_lemma ps (e1 e2 : zenv) : Tight ps e1 -> Tight ps e2 -> e1 = e2.
+Proof. apply tight_unique_set. tauto. Qed.
+
+Lemma tight_single p : Tight [p] (Some (pt_box p)).
+Proof.
+  cbn. split; [|repeat split; exists p; cbn; auto].
+  intros q [<-|[]]; unfold inside; cbn; lia.
+Qed.
+
+Lemma tight_join l1 l2 (e1 e2 : zenv) :
+  Tight l1 e1 -> Tight l2 e2 -> Tight (l1 ++ l2) (join ZO e1 e2).
+Proof.
+  destruct e1 as [a|], e2 as [b|]; cbn [join Tight].
+  - intros (Ia & (a1 & A1 & E1) & (a2 & A2 & E2) & (a3 & A3 & E3) & (a4 & A4 & E4))
+           (Ib & (b1 & B1 & F1) & (b2 & B2 & F2) & (b3 & B3 & F3) & (b4 & B4 & F4)).
+    cbn [minx miny maxx maxy]. zo. split; [|repeat split].
+    + intros p Hp. apply in_app_or in Hp. destruct Hp as [Hp|Hp]; [apply Ia in Hp|apply Ib in Hp];
+        unfold inside in *; cbn; lia.
+    + destruct (Z.min_spec (minx a) (minx b)) as [[_ ->]|[_ ->]];
+        [exists a1|exists b1]; split; auto; apply in_or_app; auto.
+    + destruct (Z.min_spec (miny a) (miny b)) as [[_ ->]|[_ ->]];
+        [exists a2|exists b2]; split; auto; apply in_or_app; auto.
+    + destruct (Z.max_spec (maxx a) (maxx b)) as [[_ ->]|[_ ->]];
+        [exists b3|exists a3]; split; auto; apply in_or_app; auto.
+    + destruct (Z.max_spec (maxy a) (maxy b)) as [[_ ->]|[_ ->]];
+        [exists b4|exists a4]; split; auto; apply in_or_app; auto.
+  - intros H ->. rewrite app_nil_r. exact H.
+  - intros -> H. exact H.
+  - intros -> ->. reflexivity.
+Qed.
+
+Lemma new_envelope_tight_lemma ps : Tight ps (new_envelope ZO ps).
+Proof.
+  induction ps as [|p ps IH]; [reflexivity|].
+  rewrite new_envelope_cons. change (p :: ps) with ([p] ++ ps).
+  apply tight_join; [apply tight_single|exact IH].
+Qed.
+
+Lemma new_envelope_set_ext l1 l2 :
+  (forall p, In p l1 <-> In p l2) -> new_envelope ZO l1 = new_envelope ZO l2.
+Proof. intros S. eapply tight_unique_set; [exact S| |]; apply new_envelope_tight_lemma. Qed.
+
+Lemma new_envelope_none_iff ps : new_envelope ZO ps = None <-> ps = [].
+Proof.
+  split; [|intros ->; reflexivity]. intros H. pose proof (new_envelope_tight_lemma ps) as T.
+  rewrite H in T. exact T.
+Qed.
+
+(* the executable statement used on the implementation's outputs is exactly [Tight] *)
+Lemma tight_spec_iff_lemma ps (e : zenv) : tight_spec ZO ps e = true <-> Tight ps e.
+Proof.
+  destruct e as [b|]; cbn.
+  - rewrite !andb_true_iff, forallb_forall, !existsb_exists. unfold inside.
+    split.
+    + intros ((((H & H1) & H2) & H3) & H4). split; [|repeat split].
+      * intros p Hp. apply H in Hp. rewrite !andb_true_iff, !Z.leb_le in Hp. lia.
+      * destruct H1 as (p & Hp & E). exists p. rewrite Z.eqb_eq in E. auto.
+      * destruct H3 as (p & Hp & E). exists p. rewrite Z.eqb_eq in E. auto.
+      * destruct H2 as (p & Hp & E). exists p. rewrite Z.eqb_eq in E. auto.
+      * destruct H4 as (p & Hp & E). exists p. rewrite Z.eqb_eq in E. auto.
+    + intros (H & (p1 & P1 & E1) & (p2 & P2 & E2) & (p3 & P3 & E3) & (p4 & P4 & E4)).
+      repeat split.
+      * intros p Hp. apply H in Hp. rewrite !andb_true_iff, !Z.leb_le. lia.
+      * exists p1. rewrite Z.eqb_eq. auto.
+      * exists p3. rewrite Z.eqb_eq. auto.
+      * exists p2. rewrite Z.eqb_eq. auto.
+      * exists p4. rewrite Z.eqb_eq. auto.
+  - destruct ps; cbn; split; intros; try reflexivity; discriminate.
+Qed.
+
+(* ------------------------------------------------------------------ *)
+(* Envelope() of every type = NewEnvelope of the visited positions     *)
+(* ------------------------------------------------------------------ *)
+Lemma fold_seq_step rest : forall b : zbox,
+  fold_left (expand_xy ZO) (map vxy rest) (Some b) = Some (fold_left (seq_step ZO) rest b).
+Proof. induction rest as [|v rest IH]; intros b; cbn [map fold_left]; [reflexivity|]. apply IH. Qed.
+
+Lemma seq_env_new vs : seq_env ZO vs = new_envelope ZO (map vxy vs).
+Proof.
+  destruct vs as [|v0 rest]; [reflexivity|].
+  unfold new_envelope. cbn [map fold_left seq_env]. symmetry. apply fold_seq_step.
+Qed.
+
+Lemma point_env_new (p : pointT Z) : point_env ZO p = new_envelope ZO (point_xys p).
+Proof. destruct p as [ct [v|]]; reflexivity. Qed.
+Lemma line_env_new (l : lineT Z) : line_env ZO l = new_envelope ZO (line_xys l).
+Proof. apply seq_env_new. Qed.
+Lemma poly_env_new (p : polyT Z) : poly_env ZO p = new_envelope ZO (poly_shell_xys p).
+Proof. apply line_env_new. Qed.
+
+Lemma fold_join_flat {A} (f : A -> zenv) (xs : A -> list (Z * Z)) l :
+  Forall (fun a => f a = new_envelope ZO (xs a)) l ->
+  forall e0, fold_left (fun e a => join ZO e (f a)) l e0 = join ZO e0 (new_envelope ZO (flat_map xs l)).
+Proof.
+  induction 1 as [|a l Ha _ IH]; intros e0; cbn [fold_left flat_map].
+  - symmetry; apply join_empty_r_lemma.
+  - rewrite IH, Ha, new_envelope_app_lemma. apply join_assoc_lemma.
+Qed.
+
+Lemma fold_env_new {A} (f : A -> zenv) (xs : A -> list (Z * Z)) l :
+  (forall a, f a = new_envelope ZO (xs a)) ->
+  fold_env ZO f l = new_envelope ZO (flat_map xs l).
+Proof.
+  intros H. unfold fold_env. rewrite (fold_join_flat f xs); [reflexivity|].
+  apply Forall_forall; auto.
+Qed.
+
+Lemma env_of_visited_lemma (g : geomT Z) : env_of ZO g = new_envelope ZO (visited_xys g).
+Proof.
+  induction g using geomT_ind'; cbn [env_of visited_xys].
+  - apply point_env_new.
+  - apply line_env_new.
+  - apply poly_env_new.
+  - apply fold_env_new, point_env_new.
+  - apply fold_env_new, line_env_new.
+  - apply fold_env_new, poly_env_new.
+  - rewrite (fold_join_flat (env_of ZO) (@visited_xys Z)); [reflexivity|assumption].
+Qed.
+
+Lemma env_of_tight_visited (g : geomT Z) : Tight (visited_xys g) (env_of ZO g).
+Proof. rewrite env_of_visited_lemma. apply new_envelope_tight_lemma. Qed.
+
+Lemma env_of_wf_lemma (g : geomT Z) : wf_env (env_of ZO g).
+Proof. eapply tight_wf, env_of_tight_visited. Qed.
+
+Lemma env_of_ext (g h : geomT Z) :
+  (forall p, In p (visited_xys g) <-> In p (visited_xys h)) -> env_of ZO g = env_of ZO h.
+Proof. intros S. rewrite !env_of_visited_lemma. apply new_envelope_set_ext, S. Qed.
+
+(* ------------------------------------------------------------------ *)
+(* the envelope of a collection is the join of its members' envelopes  *)
+(* ------------------------------------------------------------------ *)
+Lemma fold_left_join_map {A} (f : A -> zenv) l : forall e0,
+  fold_left (fun e a => join ZO e (f a)) l e0 = fold_left (join ZO) (map f l) e0.
+Proof. induction l as [|a l IH]; intros e0; cbn; [reflexivity|apply IH]. Qed.
+
+Lemma fold_env_right {A} (f : A -> zenv) l :
+  fold_env ZO f l = fold_right (join ZO) None (map f l).
+Proof.
+  unfold fold_env. rewrite fold_left_join_map. apply fold_symmetric.
+  - intros x y z. symmetry. apply join_assoc_lemma.
+  - intros y. apply join_comm_lemma.
+Qed.
+
+Lemma env_of_coll_lemma ct (gs : list (geomT Z)) :
+  env_of ZO (GColl ct gs) = fold_right (join ZO) None (map (env_of ZO) gs).
+Proof. apply (fold_env_right (env_of ZO)). Qed.
+Lemma env_of_mpoint_lemma ct (ps : list (pointT Z)) :
+  env_of ZO (GMPoint ct ps) = fold_right (join ZO) None (map (point_env ZO) ps).
+Proof. apply fold_env_right. Qed.
+Lemma env_of_mline_lemma ct (ls : list (lineT Z)) :
+  env_of ZO (GMLine ct ls) = fold_right (join ZO) None (map (line_env ZO) ls).
+Proof. apply fold_env_right. Qed.
+Lemma env_of_mpoly_lemma ct (ps : list (polyT Z)) :
+  env_of ZO (GMPoly ct ps) = fold_right (join ZO) None (map (poly_env ZO) ps).
+Proof. apply fold_env_right. Qed.
+
+Lemma env_of_coll_app_lemma ct ct1 ct2 (gs1 gs2 : list (geomT Z)) :
+  env_of ZO (GColl ct (gs1 ++ gs2)) = join ZO (env_of ZO (GColl ct1 gs1)) (env_of ZO (GColl ct2 gs2)).
+Proof.
+  rewrite !env_of_coll_lemma, map_app. induction (map (env_of ZO) gs1) as [|e l IH]; cbn.
+  - reflexivity.
+  - rewrite IH. symmetry. apply join_assoc_lemma.
+Qed.
+
+(* member order does not matter *)
+Lemma fold_env_perm {A} (f : A -> zenv) l l' :
+  Permutation l l' -> fold_env ZO f l = fold_env ZO f l'.
+Proof.
+  intros P. rewrite !fold_env_right. induction P; cbn.
+  - reflexivity.
+  - rewrite IHP. reflexivity.
+  - rewrite <- !join_assoc_lemma, (join_comm_lemma (f y)). reflexivity.
+  - congruence.
+Qed.
+
+Lemma env_of_perm_lemma (g h : geomT Z) :
+  match g, h with
+  | GMPoint _ l, GMPoint _ l' => Permutation l l'
+  | GMLine _ l, GMLine _ l' => Permutation l l'
+  | GMPoly _ l, GMPoly _ l' => Permutation l l'
+  | GColl _ l, GColl _ l' => Permutation l l'
+  | _, _ => False
+  end -> env_of ZO g = env_of ZO h.
+Proof.
+  destruct g, h; try contradiction; intros P; cbn [env_of].
+  - apply fold_env_perm, P.
+  - apply fold_env_perm, P.
+  - apply fold_env_perm, P.
+  - apply (fold_env_perm (env_of ZO)), P.
+Qed.
+
+(* ------------------------------------------------------------------ *)
+(* all control points: containment (under the polygon hypothesis) and  *)
+(* attainment of the four sides                                        *)
+(* ------------------------------------------------------------------ *)
+Lemma fold_join_inside {A} (f : A -> zenv) l p : forall e0,
+  inside_env e0 p \/ (exists a, In a l /\ inside_env (f a) p) ->
+  inside_env (fold_left (fun e a => join ZO e (f a)) l e0) p.
+Proof.
+  induction l as [|a l IH]; intros e0 H; cbn [fold_left].
+  - destruct H as [H|(a & [] & _)]. exact H.
+  - apply IH. destruct H as [H|(b & [<-|Hb] & H)].
+    + left. apply join_inside_l, H.
+    + left. apply join_inside_r, H.
+    + right. exists b. auto.
+Qed.
+
+Lemma fold_env_inside {A} (f : A -> zenv) l a p :
+  In a l -> inside_env (f a) p -> inside_env (fold_env ZO f l) p.
+Proof. intros Ha H. apply fold_join_inside. right. exists a. auto. Qed.
+
+Lemma tight_inside ps e p : Tight ps e -> In p ps -> inside_env e p.
+Proof. destruct e as [b|]; cbn; [intros (H & _); auto|intros ->; auto]. Qed.
+
+Lemma point_env_inside (q : pointT Z) v : In v (point_vs q) -> inside_env (point_env ZO q) (vxy v).
+Proof.
+  intros H. eapply tight_inside; [rewrite point_env_new; apply new_envelope_tight_lemma|].
+  apply in_map, H.
+Qed.
+Lemma line_env_inside (l : lineT Z) v : In v (line_vs l) -> inside_env (line_env ZO l) (vxy v).
+Proof.
+  intros H. eapply tight_inside; [rewrite line_env_new; apply new_envelope_tight_lemma|].
+  apply in_map, H.
+Qed.
+Lemma poly_env_inside (q : polyT Z) v :
+  poly_holes_in_shell_box ZO q = true -> In v (poly_vs q) -> inside_env (poly_env ZO q) (vxy v).
+Proof.
+  destruct q as [ct rs]. unfold poly_holes_in_shell_box, poly_vs. cbn [poly_rings].
+  destruct rs as [|r hs]; cbn [flat_map tl]; [intros _ []|].
+  intros Hh Hv. apply in_app_or in Hv. destruct Hv as [Hv|Hv].
+  - apply (line_env_inside r), Hv.
+  - apply in_flat_map in Hv. destruct Hv as (h & Hh1 & Hh2).
+    rewrite forallb_forall in Hh. specialize (Hh h Hh1). rewrite forallb_forall in Hh.
+    apply contains_iff_lemma, Hh, Hh2.
+Qed.
+
+Lemma env_of_contains_ctrl_lemma (g : geomT Z) :
+  holes_in_shell_box ZO g = true ->
+  forall v, In v (geom_vs g) -> inside_env (env_of ZO g) (vxy v).
+Proof.
+  induction g using geomT_ind'; cbn [holes_in_shell_box env_of geom_vs]; intros Hh v Hv.
+  - apply point_env_inside, Hv.
+  - apply line_env_inside, Hv.
+  - apply poly_env_inside; assumption.
+  - apply in_flat_map in Hv. destruct Hv as (a & Ha & Hv).
+    eapply fold_env_inside; [exact Ha|]. apply point_env_inside, Hv.
+  - apply in_flat_map in Hv. destruct Hv as (a & Ha & Hv).
+    eapply fold_env_inside; [exact Ha|]. apply line_env_inside, Hv.
+  - apply in_flat_map in Hv. destruct Hv as (a & Ha & Hv).
+    rewrite forallb_forall in Hh.
+    eapply fold_env_inside; [exact Ha|]. apply poly_env_inside; auto.
+  - apply in_flat_map in Hv. destruct Hv as (a & Ha & Hv).
+    rewrite forallb_forall in Hh. rewrite Forall_forall in H.
+    apply fold_join_inside. right. exists a. split; [exact Ha|]. apply H; auto.
+Qed.
+
+(* the visited positions are control points *)
+Lemma visited_incl_ctrl (g : geomT Z) : incl (visited_xys g) (ctrl_xys g).
+Proof.
+  unfold ctrl_xys.
+  induction g using geomT_ind'; cbn [visited_xys geom_vs]; intros q Hp.
+  - exact Hp.
+  - exact Hp.
+  - destruct p as [ct [|r hs]]; [destruct Hp|].
+    unfold poly_shell_xys, exterior_ring, poly_vs, line_xys in *. cbn [poly_rings flat_map] in *.
+    rewrite map_app. apply in_or_app. left. exact Hp.
+  - apply in_flat_map in Hp. destruct Hp as (a & Ha & Hp). unfold point_xys in Hp.
+    apply in_map_iff in Hp. destruct Hp as (v & <- & Hv). apply in_map, in_flat_map. eauto.
+  - apply in_flat_map in Hp. destruct Hp as (a & Ha & Hp). unfold line_xys in Hp.
+    apply in_map_iff in Hp. destruct Hp as (v & <- & Hv). apply in_map, in_flat_map. eauto.
+  - apply in_flat_map in Hp. destruct Hp as (a & Ha & Hp).
+    destruct a as [ct' [|r hs]]; [destruct Hp|].
+    unfold poly_shell_xys, exterior_ring, line_xys in Hp. cbn [poly_rings] in Hp.
+    apply in_map_iff in Hp. destruct Hp as (v & <- & Hv). apply in_map, in_flat_map.
+    exists (MkPoly ct' (r :: hs)). split; [exact Ha|]. unfold poly_vs. cbn [poly_rings flat_map].
+    apply in_or_app. left. exact Hv.
+  - apply in_flat_map in Hp. destruct Hp as (a & Ha & Hp). rewrite Forall_forall in H.
+    apply H in Hp; [|exact Ha]. apply in_map_iff in Hp. destruct Hp as (v & <- & Hv).
+    apply in_map, in_flat_map. eauto.
+Qed.
+
+(* main tightness statement: Envelope() is THE tight box of all control points *)
+Lemma env_of_tight_lemma (g : geomT Z) :
+  holes_in_shell_box ZO g = true -> Tight (ctrl_xys g) (env_of ZO g).
+Proof.
+  intros Hh. pose proof (env_of_tight_visited g) as T. pose proof (visited_incl_ctrl g) as I.
+  pose proof (env_of_contains_ctrl_lemma g Hh) as C.
+  destruct (env_of ZO g) as [b|]; cbn in *.
+  - destruct T as (_ & (p1 & P1 & E1) & (p2 & P2 & E2) & (p3 & P3 & E3) & (p4 & P4 & E4)).
+    split; [|repeat split; eauto].
+    intros p Hp. unfold ctrl_xys in Hp. apply in_map_iff in Hp. destruct Hp as (v & <- & Hv).
+    apply C, Hv.
+  - unfold ctrl_xys. destruct (geom_vs g) as [|v l]; [reflexivity|]. destruct (C v (or_introl eq_refl)).
+Qed.
+
+(* each side is attained by a control point, with no hypothesis at all *)
+Lemma env_of_sides_attained_lemma (g : geomT Z) b :
+  env_of ZO g = Some b ->
+  (exists p, In p (ctrl_xys g) /\ fst p = minx b) /\ (exists p, In p (ctrl_xys g) /\ snd p = miny b) /\
+  (exists p, In p (ctrl_xys g) /\ fst p = maxx b) /\ (exists p, In p (ctrl_xys g) /\ snd p = maxy b).
+Proof.
+  intros E. pose proof (env_of_tight_visited g) as T. pose proof (visited_incl_ctrl g) as I.
+  rewrite E in T. destruct T as (_ & (p1 & P1 & E1) & (p2 & P2 & E2) & (p3 & P3 & E3) & (p4 & P4 & E4)).
+  repeat split; eauto.
+Qed.
+
+(* ------------------------------------------------------------------ *)
+(* empty iff empty                                                     *)
+(* ------------------------------------------------------------------ *)
+Lemma flat_map_nil_iff {A B} (f : A -> list B) l : flat_map f l = [] <-> forall a, In a l -> f a = [].
+Proof.
+  induction l as [|a l IH]; cbn; [tauto|]. split.
+  - intros H. apply app_eq_nil in H. destruct H as [H1 H2]. intros b [<-|Hb]; [auto|]. apply IH; auto.
+  - intros H. rewrite (H a), (proj2 IH); auto.
+Qed.
+
+Lemma point_xys_nil (p : pointT Z) : point_xys p = [] <-> point_empty p = true.
+Proof. destruct p as [ct [v|]]; cbn; split; intros; try reflexivity; discriminate. Qed.
+Lemma line_xys_nil (l : lineT Z) : line_xys l = [] <-> line_empty l = true.
+Proof. destruct l as [ct [|v vs]]; cbn; split; intros; try reflexivity; discriminate. Qed.
+Lemma poly_xys_nil (p : polyT Z) :
+  poly_shell_nonempty p = true -> (poly_shell_xys p = [] <-> poly_empty p = true).
+Proof.
+  destruct p as [ct [|r hs]]; cbn; [split; reflexivity|].
+  unfold poly_shell_nonempty, poly_shell_xys, exterior_ring, poly_empty. cbn [poly_rings].
+  rewrite negb_true_iff. intros H. rewrite line_xys_nil, H. split; discriminate.
+Qed.
+
+Lemma visited_nil_iff (g : geomT Z) :
+  shells_nonempty g = true -> (visited_xys g = [] <-> is_empty g = true).
+Proof.
+  induction g using geomT_ind'; cbn [shells_nonempty visited_xys is_empty]; intros Hs.
+  - apply point_xys_nil.
+  - apply line_xys_nil.
+  - apply poly_xys_nil, Hs.
+  - rewrite flat_map_nil_iff, forallb_forall. split; intros H a Ha; apply point_xys_nil; auto.
+  - rewrite flat_map_nil_iff, forallb_forall. split; intros H a Ha; apply line_xys_nil; auto.
+  - rewrite flat_map_nil_iff, forallb_forall. rewrite forallb_forall in Hs.
+    split; intros H0 a Ha; apply poly_xys_nil; auto.
+  - rewrite flat_map_nil_iff, forallb_forall. rewrite forallb_forall in Hs. rewrite Forall_forall in H.
+    split; intros H0 a Ha; apply H; auto.
+Qed.
+
+Lemma env_of_empty_iff_lemma (g : geomT Z) :
+  shells_nonempty g = true -> (env_of ZO g = None <-> is_empty g = true).
+Proof.
+  intros Hs. rewrite env_of_visited_lemma, new_envelope_none_iff. apply visited_nil_iff, Hs.
+Qed.
+
+(* an empty geometry has no control point at all (no hypothesis) *)
+Lemma is_empty_no_ctrl (g : geomT Z) : is_empty g = true -> geom_vs g = [].
+Proof.
+  induction g using geomT_ind'; cbn [is_empty geom_vs]; intros He.
+  - destruct p as [ct [v|]]; [discriminate|reflexivity].
+  - destruct l as [ct [|v vs]]; [reflexivity|discriminate].
+  - destruct p as [ct [|r hs]]; [reflexivity|discriminate].
+  - apply flat_map_nil_iff. rewrite forallb_forall in He. intros a Ha. specialize (He a Ha).
+    destruct a as [ct' [v|]]; [discriminate|reflexivity].
+  - apply flat_map_nil_iff. rewrite forallb_forall in He. intros a Ha. specialize (He a Ha).
+    destruct a as [ct' [|v vs]]; [reflexivity|discriminate].
+  - apply flat_map_nil_iff. rewrite forallb_forall in He. intros a Ha. specialize (He a Ha).
+    destruct a as [ct' [|r hs]]; [reflexivity|discriminate].
+  - apply flat_map_nil_iff. rewrite forallb_forall in He. rewrite Forall_forall in H. auto.
+Qed.
+
+(* ------------------------------------------------------------------ *)
+(* invariance under representation changes                             *)
+(* ------------------------------------------------------------------ *)
+Lemma fold_join_ext {A B} (f : B -> zenv) (f' : A -> zenv) (r : A -> B) l :
+  Forall (fun a => f (r a) = f' a) l ->
+  forall e0, fold_left (fun e b => join ZO e (f b)) (map r l) e0 = fold_left (fun e a => join ZO e (f' a)) l e0.
+Proof.
+  induction 1 as [|a l Ha _ IH]; intros e0; cbn [map fold_left]; [reflexivity|].
+  rewrite Ha. apply IH.
+Qed.
+Lemma fold_env_map {A} (f : A -> zenv) (r : A -> A) l :
+  (forall a, f (r a) = f a) -> fold_env ZO f (map r l) = fold_env ZO f l.
+Proof. intros H. apply fold_join_ext, Forall_forall. auto. Qed.
+
+Lemma line_env_set_ext (l1 l2 : lineT Z) :
+  (forall p, In p (line_xys l1) <-> In p (line_xys l2)) -> line_env ZO l1 = line_env ZO l2.
+Proof. intros S. rewrite !line_env_new. apply new_envelope_set_ext, S. Qed.
+
+(* Reverse *)
+Lemma line_env_reverse (l : lineT Z) : line_env ZO (reverse_line l) = line_env ZO l.
+Proof.
+  apply line_env_set_ext. intros p. destruct l as [ct vs]. unfold line_xys, reverse_line.
+  cbn [line_vs line_ct]. rewrite map_rev. symmetry. apply in_rev.
+Qed.
+Lemma exterior_ring_map (r : lineT Z -> lineT Z) ct ct' (rs : list (lineT Z)) :
+  line_env ZO (exterior_ring (MkPoly ct' (map r rs))) =
+  line_env ZO (match rs with [] => MkLine ct [] | x :: _ => r x end).
+Proof. destruct rs; reflexivity. Qed.
+Lemma poly_env_reverse (p : polyT Z) : poly_env ZO (reverse_poly p) = poly_env ZO p.
+Proof.
+  destruct p as [ct [|r hs]]; [reflexivity|]. unfold poly_env, reverse_poly, exterior_ring.
+  cbn [poly_rings poly_ct map]. apply line_env_reverse.
+Qed.
+Lemma env_of_reverse_lemma (g : geomT Z) : env_of ZO (reverse_geom g) = env_of ZO g.
+Proof.
+  induction g using geomT_ind'; cbn [reverse_geom env_of]; try reflexivity.
+  - apply line_env_reverse.
+  - apply poly_env_reverse.
+  - apply fold_env_map, line_env_reverse.
+  - apply fold_env_map, poly_env_reverse.
+  - apply fold_join_ext. exact H.
+Qed.
+
+(* orientation forcing: every ring kept or reversed, whatever the decision procedure says *)
+Lemma poly_env_orient keep (p : polyT Z) : poly_env ZO (orient_poly keep p) = poly_env ZO p.
+Proof.
+  destruct p as [ct [|r hs]]; [reflexivity|]. unfold poly_env, orient_poly, exterior_ring.
+  cbn [poly_rings poly_ct orient_rings]. destruct (keep true r); [reflexivity|apply line_env_reverse].
+Qed.
+Lemma env_of_orient_lemma keep (g : geomT Z) : env_of ZO (orient_geom keep g) = env_of ZO g.
+Proof.
+  induction g using geomT_ind'; cbn [orient_geom env_of]; try reflexivity.
+  - apply poly_env_orient.
+  - apply fold_env_map, poly_env_orient.
+  - apply fold_join_ext. exact H.
+Qed.
+
+(* ForceCoordinatesType (Force2D is the XY case) *)
+Lemma vxy_force old new (v : vtx Z) : vxy (force_vtx 0 old new v) = vxy v.
+Proof. reflexivity. Qed.
+Lemma point_env_force new (p : pointT Z) : point_env ZO (force_point 0 new p) = point_env ZO p.
+Proof. destruct p as [ct [v|]]; reflexivity. Qed.
+Lemma line_env_force new (l : lineT Z) : line_env ZO (force_line 0 new l) = line_env ZO l.
+Proof.
+  destruct l as [ct vs]. rewrite !line_env_new. unfold line_xys, force_line. cbn [line_vs].
+  rewrite map_map. f_equal.
+Qed.
+Lemma poly_env_force new (p : polyT Z) : poly_env ZO (force_poly 0 new p) = poly_env ZO p.
+Proof.
+  destruct p as [ct [|r hs]]; [reflexivity|]. unfold poly_env, force_poly, exterior_ring.
+  cbn [poly_rings map]. apply line_env_force.
+Qed.
+Lemma env_of_force_lemma new (g : geomT Z) : env_of ZO (force_geom 0 new g) = env_of ZO g.
+Proof.
+  induction g using geomT_ind'; cbn [force_geom env_of].
+  - apply point_env_force.
+  - apply line_env_force.
+  - apply poly_env_force.
+  - apply fold_env_map, point_env_force.
+  - apply fold_env_map, line_env_force.
+  - apply fold_env_map, poly_env_force.
+  - apply fold_join_ext. exact H.
+Qed.
+
+(* a closed ring started at another vertex: drop the closing vertex, rotate by k, close again *)
+Definition rotate_closed {A} (k : nat) (vs : list A) : list A :=
+  let o := removelast vs in
+  let r := skipn k o ++ firstn k o in
+  r ++ firstn 1 r.
+
+Lemma rotate_closed_In {A} k (v0 : A) mid x :
+  In x (rotate_closed k (v0 :: mid ++ [v0])) <-> In x (v0 :: mid ++ [v0]).
+Proof.
+  unfold rotate_closed. change (v0 :: mid ++ [v0]) with ((v0 :: mid) ++ [v0]).
+  rewrite removelast_last. set (o := v0 :: mid).
+  assert (R : forall y, In y (skipn k o ++ firstn k o) <-> In y o).
+  { intros y. rewrite in_app_iff, or_comm, <- in_app_iff, firstn_skipn. tauto. }
+  set (r := skipn k o ++ firstn k o) in *.
+  assert (F : forall y, In y (firstn 1 r) -> In y r).
+  { intros y Hy. rewrite <- (firstn_skipn 1 r). apply in_or_app. left. exact Hy. }
+  rewrite (in_app_iff r), (in_app_iff o). split.
+  - intros [H|H]; left; apply R; auto.
+  - intros [H|[<-|[]]]; left; apply R; [exact H|left; reflexivity].
+Qed.
+
+Lemma line_env_rotate_lemma ct k (v0 : vtx Z) mid :
+  line_env ZO (MkLine ct (rotate_closed k (v0 :: mid ++ [v0]))) = line_env ZO (MkLine ct (v0 :: mid ++ [v0])).
+Proof.
+  apply line_env_set_ext. intros p. unfold line_xys. cbn [line_vs]. rewrite !in_map_iff.
+  split; intros (v & E & Hv); exists v; (split; [exact E|]); apply (rotate_closed_In k v0 mid v); exact Hv.
+Qed.
+Lemma poly_env_rotate_lemma ct c k (v0 : vtx Z) mid hs hs' :
+  poly_env ZO (MkPoly ct (MkLine c (rotate_closed k (v0 :: mid ++ [v0])) :: hs')) =
+  poly_env ZO (MkPoly ct (MkLine c (v0 :: mid ++ [v0]) :: hs)).
+Proof. apply line_env_rotate_lemma. Qed.
+
+(* ------------------------------------------------------------------ *)
+(* AsGeometry / BoundingDiagonal have the envelope they came from      *)
+(* ------------------------------------------------------------------ *)
+Lemma as_geometry_env_lemma (e : zenv) : wf_env e -> env_of ZO (as_geometry ZO e) = e.
+Proof.
+  destruct e as [[x0 y0 x1 y1]|]; [|reflexivity]. intros [Hx Hy]. cbn in Hx, Hy.
+  unfold as_geometry, env_is_point, env_is_line. cbn [minx miny maxx maxy o_eq ZO].
+  destruct (Z.eqb_spec x0 x1) as [Ex|Ex], (Z.eqb_spec y0 y1) as [Ey|Ey]; cbn [andb xorb]; subst.
+  - reflexivity.
+  - cbn -[fast_min fast_max]. f_equal. apply box_eq; cbn -[fast_min fast_max]; zo; lia.
+  - cbn -[fast_min fast_max]. f_equal. apply box_eq; cbn -[fast_min fast_max]; zo; lia.
+  - cbn -[fast_min fast_max]. f_equal. apply box_eq; cbn -[fast_min fast_max]; zo; lia.
+Qed.
+
+Lemma bounding_diagonal_env_lemma (e : zenv) : wf_env e -> env_of ZO (bounding_diagonal ZO e) = e.
+Proof.
+  destruct e as [[x0 y0 x1 y1]|]; [|reflexivity]. intros [Hx Hy]. cbn in Hx, Hy.
+  unfold bounding_diagonal, env_is_point. cbn [minx miny maxx maxy o_eq ZO].
+  destruct (Z.eqb_spec x0 x1) as [Ex|Ex], (Z.eqb_spec y0 y1) as [Ey|Ey]; cbn [andb]; subst.
+  - reflexivity.
+  - cbn -[fast_min fast_max]. f_equal. apply box_eq; cbn -[fast_min fast_max]; zo; lia.
+  - cbn -[fast_min fast_max]. f_equal. apply box_eq; cbn -[fast_min fast_max]; zo; lia.
+  - cbn -[fast_min fast_max]. f_equal. apply box_eq; cbn -[fast_min fast_max]; zo; lia.
+Qed.
+
+Lemma as_geometry_shape_lemma (e : zenv) :
+  match as_geometry ZO e with
+  | GColl XY [] => env_is_empty e = true
+  | GPoint _ => env_is_point ZO e = true
+  | GLine _ => env_is_line ZO e = true
+  | GPoly _ => env_is_rectangle ZO e = true
+  | _ => False
+  end.
+Proof.
+  destruct e as [b|]; [|reflexivity]. unfold as_geometry.
+  destruct (env_is_point ZO (Some b)) eqn:P; [reflexivity|].
+  destruct (env_is_line ZO (Some b)) eqn:L; [reflexivity|].
+  pose proof (classification_lemma (Some b)) as C. rewrite P, L in C. cbn [env_is_empty b2n] in C.
+  destruct (env_is_rectangle ZO (Some b)); [reflexivity|discriminate].
+Qed.
+
+(* Min / Max / MinMaxXYs / AsBox return the stored corners *)
+Lemma min_max_lemma (b : zbox) :
+  env_min ZO (Some b) = MkPoint XY (Some (Build_vtx (minx b) (miny b) 0 0)) /\
+  env_max ZO (Some b) = MkPoint XY (Some (Build_vtx (maxx b) (maxy b) 0 0)) /\
+  min_max_xys ZO (Some b) = ((minx b, miny b), (maxx b, maxy b), true) /\
+  as_box ZO (Some b) = ((minx b, miny b, maxx b, maxy b), true) /\
+  env_min ZO None = MkPoint XY None /\ env_max ZO None = MkPoint XY None /\
+  snd (min_max_xys ZO None) = false /\ snd (as_box ZO None) = false.
+Proof. repeat split. Qed.
+
+(* TransformXY: the tight box of the images of the two stored corners *)
+Lemma transform_xy_tight_lemma fn (b : zbox) :
+  Tight [fn (minx b, miny b); fn (maxx b, maxy b)] (transform_xy ZO fn (Some b)).
+Proof.
+  replace (transform_xy ZO fn (Some b))
+    with (new_envelope ZO [fn (minx b, miny b); fn (maxx b, maxy b)]) by reflexivity.
+  apply new_envelope_tight_lemma.
+Qed.
+Lemma transform_xy_empty_lemma fn : transform_xy ZO fn None = None.
+Proof. reflexivity. Qed.
+
+(* ------------------------------------------------------------------ *)
+(* convexity: the box contains every point of every segment            *)
+(* ------------------------------------------------------------------ *)
+Open Scope Q_scope.
+Definition insideQ (b : zbox) (r : Q * Q) : Prop :=
+  inject_Z (minx b) <= fst r <= inject_Z (maxx b) /\ inject_Z (miny b) <= snd r <= inject_Z (maxy b).
+(* r = (1-t) p + t q with 0 <= t <= 1 *)
+Definition on_segment (p q : Z * Z) (r : Q * Q) : Prop :=
+  exists t : Q, 0 <= t <= 1 /\
+    fst r == (1 - t) * inject_Z (fst p) + t * inject_Z (fst q) /\
+    snd r == (1 - t) * inject_Z (snd p) + t * inject_Z (snd q).
+
+Lemma convex_comb_bounds (lo hi a c t : Q) :
+  lo <= a <= hi -> lo <= c <= hi -> 0 <= t <= 1 -> lo <= (1 - t) * a + t * c <= hi.
+Proof. intros. nra. Qed.
+
+Lemma box_contains_segment_lemma (b : zbox) p q r :
+  inside b p -> inside b q -> on_segment p q r -> insideQ b r.
+Proof.
+  intros [Px Py] [Qx Qy] (t & Ht & Ex & Ey). unfold insideQ. rewrite Ex, Ey.
+  split; apply convex_comb_bounds; auto; rewrite <- !Zle_Qle; lia.
+Qed.
+Close Scope Q_scope.
+
+Lemma env_of_contains_segment_lemma (g : geomT Z) b u v r :
+  holes_in_shell_box ZO g = true -> env_of ZO g = Some b ->
+  In u (geom_vs g) -> In v (geom_vs g) -> on_segment (vxy u) (vxy v) r -> insideQ b r.
+Proof.
+  intros Hh E Hu Hv Hr. pose proof (env_of_contains_ctrl_lemma g Hh) as C.
+  pose proof (C u Hu) as Cu. pose proof (C v Hv) as Cv. rewrite E in Cu, Cv.
+  cbn in Cu, Cv. exact (box_contains_segment_lemma b _ _ r Cu Cv Hr).
+Qed.
+
+(* ------------------------------------------------------------------ *)
+(* the enumerating statements used on the implementation's outputs     *)
+(* agree with the model on well-formed envelopes                       *)
+(* ------------------------------------------------------------------ *)
+Lemma zrange_In lo hi x : In x (zrange lo hi) <-> lo <= x <= hi.
+Proof.
+  unfold zrange. rewrite in_map_iff. split.
+  - intros (i & <- & Hi). apply in_seq in Hi. lia.
+  - intros H. exists (Z.to_nat (x - lo)). split; [lia|]. apply in_seq. lia.
+Qed.
+
+Lemma box_points_In (b : zbox) p : In p (box_points b) <-> inside b p.
+Proof.
+  unfold box_points, inside. rewrite in_flat_map. split.
+  - intros (x & Hx & Hp). apply in_map_iff in Hp. destruct Hp as (y & <- & Hy).
+    apply zrange_In in Hx, Hy. cbn. lia.
+  - intros [Hx Hy]. exists (fst p). split; [apply zrange_In, Hx|].
+    apply in_map_iff. exists (snd p). split; [destruct p; reflexivity|apply zrange_In, Hy].
+Qed.
+
+Lemma env_points_In (e : zenv) p : In p (env_points e) <-> inside_env e p.
+Proof. destruct e as [b|]; cbn; [apply box_points_In|tauto]. Qed.
+
+Lemma pt_eqb_eq p q : pt_eqb p q = true <-> p = q.
+Proof.
+  destruct p, q; unfold pt_eqb; cbn. rewrite andb_true_iff, !Z.eqb_eq. split; [intros []|intros [=]]; subst; auto.
+Qed.
+Lemma mem_pt_In p l : mem_pt p l = true <-> In p l.
+Proof.
+  unfold mem_pt. rewrite existsb_exists. split.
+  - intros (q & Hq & E). apply pt_eqb_eq in E. subst. exact Hq.
+  - intros H. exists p. split; [exact H|apply pt_eqb_eq; reflexivity].
+Qed.
+
+Lemma intersects_spec_lemma (a b : zenv) :
+  wf_env a -> wf_env b -> intersects_spec a b = intersects ZO a b.
+Proof.
+  intros Ha Hb. apply eq_true_iff_eq. rewrite (intersects_iff_lemma a b Ha Hb).
+  unfold intersects_spec. rewrite existsb_exists. split.
+  - intros (p & Hp & Hq). apply mem_pt_In in Hq. exists p. rewrite <- !env_points_In. auto.
+  - intros (p & Hp & Hq). exists p. rewrite mem_pt_In, !env_points_In. auto.
+Qed.
+
+Lemma covers_spec_lemma (a b : zenv) : wf_env b -> covers_spec a b = covers ZO a b.
+Proof.
+  intros Hb. destruct a as [a|], b as [b|]; try reflexivity.
+  apply eq_true_iff_eq. rewrite (covers_iff_lemma a b Hb). unfold covers_spec.
+  cbn [env_is_empty negb andb]. rewrite forallb_forall. split.
+  - intros H p Hp. apply (env_points_In (Some a)), mem_pt_In, H, (env_points_In (Some b)), Hp.
+  - intros H p Hp. apply mem_pt_In, (env_points_In (Some a)), H, (env_points_In (Some b)), Hp.
+Qed.
+
+(* least element of a non-empty list computed by the option-fold of dist2_spec *)
+Definition min_step (acc : option Z) (x : Z) : option Z :=
+  match acc with None => Some x | Some d => Some (Z.min d x) end.
+
+Lemma fold_min_step l : forall acc,
+  match fold_left min_step l acc with
+  | None => acc = None /\ l = []
+  | Some m => (forall x, In x l -> m <= x) /\
+              match acc with
+              | Some d => m <= d /\ (m = d \/ In m l)
+              | None => In m l
+              end
+  end.
+Proof.
+  induction l as [|x l IH]; intros acc; cbn [fold_left].
+  - destruct acc as [d|]; [|auto]. split; [intros ? []|]. split; [lia|auto].
+  - specialize (IH (min_step acc x)). destruct (fold_left min_step l (min_step acc x)) as [m|].
+    + destruct IH as [H1 H2]. destruct acc as [d|]; cbn [min_step] in H2.
+      * destruct H2 as [H2 H3]. split; [intros y [<-|Hy]; [lia|auto]|]. split; [lia|].
+        destruct H3 as [->|H3]; [|right; right; exact H3].
+        destruct (Z.min_spec d x) as [[_ ->]|[_ ->]]; [left; reflexivity|right; left; reflexivity].
+      * destruct H2 as [H2 H3]. split; [intros y [<-|Hy]; [lia|auto]|].
+        destruct H3 as [->|H3]; [left; reflexivity|right; exact H3].
+    + destruct IH as [H _]. destruct acc; discriminate.
+Qed.
+
+Lemma dist2_spec_fold (a b : zenv) :
+  dist2_spec a b =
+  fold_left min_step (flat_map (fun p => map (sqd p) (env_points b)) (env_points a)) None.
+Proof.
+  unfold dist2_spec. generalize (@None Z).
+  induction (env_points a) as [|p A IH]; intros acc; cbn [fold_left flat_map]; [reflexivity|].
+  rewrite fold_left_app, IH. f_equal.
+  clear. revert acc. induction (env_points b) as [|q B IH]; intros acc; cbn [fold_left map]; [reflexivity|].
+  rewrite <- IH. reflexivity.
+Qed.
+
+Lemma dist2_spec_lemma (a b : zenv) : wf_env a -> wf_env b -> dist2_spec a b = dist2 a b.
+Proof.
+  intros Ha Hb. rewrite dist2_spec_fold.
+  pose proof (fold_min_step (flat_map (fun p => map (sqd p) (env_points b)) (env_points a)) None) as F.
+  destruct a as [a|]; [|reflexivity].
+  destruct b as [b|].
+  2:{ cbn [env_points map] in *. destruct (fold_left _ _ _) as [m|]; [|reflexivity].
+      destruct F as [_ F]. apply in_flat_map in F. destruct F as (p & _ & []). }
+  destruct (dist2_attained_lemma a b Ha Hb) as (d & p & q & E & Hp & Hq & Hd).
+  transitivity (Some d); [|symmetry; exact E].
+  assert (Din : In d (flat_map (fun p => map (sqd p) (env_points (Some b))) (env_points (Some a)))).
+  { apply in_flat_map. exists p. split; [apply (env_points_In (Some a)), Hp|].
+    apply in_map_iff. exists q. split; [exact Hd|apply (env_points_In (Some b)), Hq]. }
+  destruct (fold_left _ _ _) as [m|].
+  - destruct F as [F1 F2]. f_equal. apply Z.le_antisymm; [apply F1, Din|].
+    apply in_flat_map in F2. destruct F2 as (p' & Hp' & F2). apply in_map_iff in F2.
+    destruct F2 as (q' & <- & Hq'). eapply dist2_lower_bound_lemma; [exact E| |].
+    + apply (env_points_In (Some a)), Hp'.
+    + apply (env_points_In (Some b)), Hq'.
+  - destruct F as [_ F]. rewrite F in Din. destruct Din.
+Qed.
+
+(* ------------------------------------------------------------------ *)
+(* conjunctions stated as single theorems in Props/C12.v               *)
+(* ------------------------------------------------------------------ *)
+Lemma join_empty_identity_lemma (a : zenv) : join ZO None a = a /\ join ZO a None = a.
+Proof. split; [apply join_empty_l_lemma|apply join_empty_r_lemma]. Qed.
+
+Lemma empty_absorbing_lemma (a : zenv) p :
+  contains ZO None p = false /\
+  intersects ZO None a = false /\ intersects ZO a None = false /\
+  covers ZO a None = false /\ covers ZO None a = false.
+Proof.
+  pose proof (intersects_empty_lemma a). pose proof (covers_empty_lemma a).
+  repeat split; try tauto.
+Qed.
+
+Lemma classification_meaning_lemma (b : zbox) : wf_box b ->
+  (env_is_point ZO (Some b) = true <-> (minx b = maxx b /\ miny b = maxy b)) /\
+  (env_is_line ZO (Some b) = true <-> (area (Some b) = 0 /\ 0 < width (Some b) + height (Some b))) /\
+  (env_is_rectangle ZO (Some b) = true <-> 0 < area (Some b)).
+Proof.
+  intros H. split; [apply is_point_iff_lemma|].
+  split; [apply is_line_iff_lemma, H|apply is_rectangle_iff_lemma, H].
+Qed.
+
+Lemma measures_lemma (e : zenv) :
+  area e = width e * height e /\ (wf_env e -> 0 <= width e /\ 0 <= height e /\ 0 <= area e) /\
+  width None = 0 /\ height None = 0 /\ area None = 0.
+Proof. split; [apply area_lemma|]. split; [apply measures_nonneg_lemma|]. repeat split. Qed.
+
+Lemma transform_xy_lemma fn (b : zbox) :
+  Tight [fn (minx b, miny b); fn (maxx b, maxy b)] (transform_xy ZO fn (Some b)) /\
+  transform_xy ZO fn None = None.
+Proof. split; [apply transform_xy_tight_lemma|reflexivity]. Qed.
+
+Lemma envelopes_wf_lemma (g : geomT Z) (a b : zenv) ps :
+  wf_env (env_of ZO g) /\ wf_env (new_envelope ZO ps) /\ (wf_env a -> wf_env b -> wf_env (join ZO a b)).
+Proof.
+  split; [apply env_of_wf_lemma|]. split; [|apply join_wf_lemma].
+  eapply tight_wf, new_envelope_tight_lemma.
+Qed.
+
+Lemma env_of_visited_incl_lemma (g : geomT Z) :
+  env_of ZO g = new_envelope ZO (visited_xys g) /\ incl (visited_xys g) (ctrl_xys g).
+Proof. split; [apply env_of_visited_lemma|apply visited_incl_ctrl]. Qed.
+
+Lemma ring_rotation_lemma ct c k (v0 : vtx Z) mid hs hs' :
+  line_env ZO (MkLine c (rotate_closed k (v0 :: mid ++ [v0]))) = line_env ZO (MkLine c (v0 :: mid ++ [v0])) /\
+  poly_env ZO (MkPoly ct (MkLine c (rotate_closed k (v0 :: mid ++ [v0])) :: hs')) =
+  poly_env ZO (MkPoly ct (MkLine c (v0 :: mid ++ [v0]) :: hs)).
+Proof. split; [apply line_env_rotate_lemma|apply poly_env_rotate_lemma]. Qed.
+
+Lemma collection_join_lemma ct (gs : list (geomT Z)) (ps : list (pointT Z))
+      (ls : list (lineT Z)) (ys : list (polyT Z)) :
+  env_of ZO (GColl ct gs) = fold_right (join ZO) None (map (env_of ZO) gs) /\
+  env_of ZO (GMPoint ct ps) = fold_right (join ZO) None (map (point_env ZO) ps) /\
+  env_of ZO (GMLine ct ls) = fold_right (join ZO) None (map (line_env ZO) ls) /\
+  env_of ZO (GMPoly ct ys) = fold_right (join ZO) None (map (poly_env ZO) ys).
+Proof.
+  split; [apply env_of_coll_lemma|]. split; [apply env_of_mpoint_lemma|].
+  split; [apply env_of_mline_lemma|apply env_of_mpoly_lemma].
+Qed.
+
+Lemma enumerating_specs_lemma (a b : zenv) : wf_env a -> wf_env b ->
+  intersects_spec a b = intersects ZO a b /\ covers_spec a b = covers ZO a b /\ dist2_spec a b = dist2 a b.
+Proof.
+  intros Ha Hb. split; [apply intersects_spec_lemma; assumption|].
+  split; [apply covers_spec_lemma; assumption|apply dist2_spec_lemma; assumption].
+Qed.
+
+(* ------------------------------------------------------------------ *)
+(* the float64-key instance agrees with the integer instance on all    *)
+(* inputs without NaN (the embedding Some : Z -> fkey)                 *)
+(* ------------------------------------------------------------------ *)
+Definition lift_box (b : zbox) : box fkey := MkBox (Some (minx b)) (Some (miny b)) (Some (maxx b)) (Some (maxy b)).
+Definition lift_env (e : zenv) : env fkey := option_map lift_box e.
+
+Lemma fmin_lift a b : fast_min KO (Some a) (Some b) = Some (fast_min ZO a b).
+Proof. unfold fast_min; cbn. destruct (a <? b); reflexivity. Qed.
+Lemma fmax_lift a b : fast_max KO (Some a) (Some b) = Some (fast_max ZO a b).
+Proof. unfold fast_max; cbn. destruct (b <? a); reflexivity. Qed.
+
+Lemma join_lift (a b : zenv) : join KO (lift_env a) (lift_env b) = lift_env (join ZO a b).
+Proof.
+  destruct a as [a|], b as [b|]; try reflexivity. cbn [lift_env option_map join lift_box minx miny maxx maxy].
+  rewrite !fmin_lift, !fmax_lift. reflexivity.
+Qed.
+
+Lemma seq_env_lift (vs : list (vtx Z)) :
+  seq_env KO (map (map_vtx Z fkey Some) vs) = lift_env (seq_env ZO vs).
+Proof.
+  destruct vs as [|v0 rest]; [reflexivity|]. cbn [map seq_env lift_env option_map]. f_equal.
+  change (MkBox (vx (map_vtx Z fkey Some v0)) (vy (map_vtx Z fkey Some v0))
+                (vx (map_vtx Z fkey Some v0)) (vy (map_vtx Z fkey Some v0)))
+    with (lift_box (MkBox (vx v0) (vy v0) (vx v0) (vy v0))).
+  generalize (MkBox (vx v0) (vy v0) (vx v0) (vy v0)).
+  induction rest as [|v rest IH]; intros b; cbn [map fold_left]; [reflexivity|].
+  rewrite <- IH. f_equal. unfold seq_step, lift_box. cbn [minx miny maxx maxy map_vtx vx vy].
+  rewrite !fmin_lift, !fmax_lift. reflexivity.
+Qed.
+
+Lemma point_env_lift (p : pointT Z) : point_env KO (map_point Z fkey Some p) = lift_env (point_env ZO p).
+Proof. destruct p as [ct [v|]]; reflexivity. Qed.
+Lemma line_env_lift (l : lineT Z) : line_env KO (map_line Z fkey Some l) = lift_env (line_env ZO l).
+Proof. destruct l as [ct vs]. apply seq_env_lift. Qed.
+Lemma poly_env_lift (p : polyT Z) : poly_env KO (map_poly Z fkey Some p) = lift_env (poly_env ZO p).
+Proof. destruct p as [ct [|r hs]]; [reflexivity|]. apply (line_env_lift r). Qed.
+
+Lemma fold_join_lift {A B} (f : A -> zenv) (f' : B -> env fkey) (r : A -> B) l :
+  Forall (fun a => f' (r a) = lift_env (f a)) l ->
+  forall e0, fold_left (fun e b => join KO e (f' b)) (map r l) (lift_env e0)
+             = lift_env (fold_left (fun e a => join ZO e (f a)) l e0).
+Proof.
+  induction 1 as [|a l Ha _ IH]; intros e0; cbn [map fold_left]; [reflexivity|].
+  rewrite Ha, join_lift. apply IH.
+Qed.
+
+Lemma env_of_lift_lemma (g : geomT Z) : env_of KO (map_geom Some g) = lift_env (env_of ZO g).
+Proof.
+  induction g using geomT_ind'; cbn [map_geom env_of]; unfold fold_env;
+    try change (@None (box fkey)) with (lift_env None).
+  - apply point_env_lift.
+  - apply line_env_lift.
+  - apply poly_env_lift.
+  - apply (fold_join_lift (point_env ZO) (point_env KO)), Forall_forall. intros; apply point_env_lift.
+  - apply (fold_join_lift (line_env ZO) (line_env KO)), Forall_forall. intros; apply line_env_lift.
+  - apply (fold_join_lift (poly_env ZO) (poly_env KO)), Forall_forall. intros; apply poly_env_lift.
+  - apply (fold_join_lift (env_of ZO) (env_of KO)). exact H.
+Qed.
